@@ -42,12 +42,13 @@ PROPS = {
     "C13": dict(fam=["renege", "core1"], mc=["renege"], inv=["Inv_C13"], step=["Step_C13"]),
     "C17": dict(fam=["trk"], mc=["trk", "dead"], inv=["Inv_C17"], step=["Step_C17"]),
     "C18": dict(fam=["dead"], mc=["dead"], inv=["Inv_C18"], step=["Step_C18"]),
+    "C19": dict(fam=["ps", "psfifo"], mc=["ps"], inv=["Inv_C19"], step=["Step_C19"]),
     "C20": dict(fam=["exact"], mc=["exact"], inv=[], step=["Step_C20"]),
     "C14": dict(fam=["stopcount", "core1", "tandem", "prio", "cls", "renege", "route", "preempt"],
                 mc=["core1", "stopcount"], inv=[], step=["Step_C14"]),
 }
 
-ALLFAM = ["core1", "tandem", "prio", "preempt", "cls", "clsren", "renege", "route", "sched", "schedpre", "schedblock",
+ALLFAM = ["ps", "core1", "tandem", "prio", "preempt", "cls", "clsren", "renege", "route", "sched", "schedpre", "schedblock",
           "slot", "ccw", "trk", "reroute", "stopcount"]
 
 TIERS = {
@@ -79,7 +80,11 @@ def gen_one(job):
     rng = random.Random("%s/%d" % (fam, seed))
     sc = FAMILIES[fam](rng)
     try:
-        r = Run(copy.deepcopy(sc), seed=seed, adversarial=adversarial, max_events=max_events, tid=seed)
+        script = sc.pop("script", None)
+        r = Run(copy.deepcopy(sc), seed=seed, adversarial=adversarial, max_events=max_events, tid=seed,
+                script=copy.deepcopy(script))
+        if script is not None:
+            sc["script"] = script
         t = r.execute()
         t["family"] = fam
         t["seed"] = seed
